@@ -157,6 +157,12 @@ def configs(tier, rng):
         out.append(dict(rt=rt, res=1.0, until=10, strict=False, sims=[{'step_size': 6}, dict(ev, events={'0': [3, 5]}), {}], connect=[(0, 1, 'trig'), (1, 2)]))
         out.append(dict(rt=rt, res=0.5, until=10, strict=True, sims=[{'step_size': 7, 'group': True}, dict(ev, events={'0': [2], '2': [5, 12]})], connect=[(0, 1, 'trig')]))
     for rt in rts:
+        # a lone simulator whose every step ends a fraction of a step length after its deadline (late, but by less than a step)
+        for frac in (0.5, 0.25):
+            for strict in (False, True):
+                out.append(dict(rt=rt, res=1.0, until=5, strict=strict, sims=[{'duration': rt * frac}], connect=[]))
+        out.append(dict(rt=rt, res=1.0, until=6, strict=False, sims=[{'duration': rt * 0.5, 'step_size': 2}, {'step_size': 3}], connect=[]))
+    for rt in rts:
         out.append(dict(rt=rt, res=1.0, until=4, strict=False, sims=[{'duration': rt * 1.5}, {}], connect=[(0, 1)]))     # genuinely slow
         out.append(dict(rt=rt, res=1.0, until=4, strict=True, sims=[{'duration': rt * 1.5}, {}], connect=[(0, 1)]))
         out.append(dict(rt=rt, res=1.0, until=4, strict=True, sims=[{'duration': rt * 0.5}, {}], connect=[(0, 1)]))      # slow but within the period
